@@ -407,7 +407,7 @@ fn api_compat_mode(args: &[String], holes: bool, roundtrip: bool) {
     let all_versions = expand_version_mask(u32::MAX);
     let full: u32 = all_versions.iter().fold(0u32, |a, v| a | (*v as u32));
     #[derive(Clone)]
-    enum Extra { None, AttrEnum(AttributeName, EnumItem), AttrText(AttributeName), CdataEnum(EnumItem) }
+    enum Extra { None, AttrEnum(AttributeName, EnumItem), AttrText(AttributeName), CdataEnum(EnumItem), AttrTextType(AttributeName) }
     struct Cand { path: Vec<(ElementName, ElementType)>, mask: u32, avail: u32, extra: Extra, what: String }
     let mut cands: Vec<Cand> = Vec::new();
     let mut seen: HashSet<ElementType> = HashSet::new();
@@ -427,6 +427,18 @@ fn api_compat_mode(args: &[String], holes: bool, roundtrip: bool) {
             let navail2 = navail & name_mask;
             if mask & common != common {
                 cands.push(Cand { path: p2.clone(), mask: m, avail: navail2, extra: Extra::None, what: format!("element {} exists only in versions {:#x}", name, name_mask) });
+            }
+            // the same name listed with another element type (for other versions) that lacks one of this type's attributes
+            for (n2, st2, _, _) in t.sub_element_spec_iter() {
+                if n2 != name || st2 == st { continue; }
+                for (aname, aspec, _) in st.attribute_spec_iter() {
+                    if st2.find_attribute_spec(aname).is_some() { continue; }
+                    let aver = st.find_attribute_spec(aname).map(|a| a.version).unwrap_or(0);
+                    if m & aver == 0 || !matches!(aspec, CharacterDataSpec::String { .. }) { continue; }
+                    let mut am = 0u32;
+                    for (n3, st3, m3, _) in t.sub_element_spec_iter() { if n3 == name { if let Some(a3) = st3.find_attribute_spec(aname) { am |= m3 & a3.version; } } }
+                    cands.push(Cand { path: p2.clone(), mask: m & aver, avail: navail2 & am, extra: Extra::AttrTextType(aname), what: format!("attribute {} of {} exists only in the element type used in versions {:#x}", aname, name, am) });
+                }
             }
             if seen.insert(st) {
                 // attributes of the new type
@@ -462,8 +474,8 @@ fn api_compat_mode(args: &[String], holes: bool, roundtrip: bool) {
     let total_cands = cands.len();
     // spread the budget over the kinds of candidates
     let mut picked: Vec<&Cand> = Vec::new();
-    for kind in 0..4 {
-        let of_kind: Vec<&Cand> = cands.iter().filter(|c| matches!((&c.extra, kind), (Extra::None, 0) | (Extra::AttrEnum(..), 1) | (Extra::AttrText(..), 2) | (Extra::CdataEnum(..), 3))).collect();
+    for kind in 0..5 {
+        let of_kind: Vec<&Cand> = cands.iter().filter(|c| matches!((&c.extra, kind), (Extra::None, 0) | (Extra::AttrEnum(..), 1) | (Extra::AttrText(..), 2) | (Extra::CdataEnum(..), 3) | (Extra::AttrTextType(..), 4))).collect();
         let step = (of_kind.len() / (maxdocs / 4).max(1)).max(1);
         picked.extend(of_kind.into_iter().step_by(step).take(maxdocs / 4));
     }
@@ -482,7 +494,7 @@ fn api_compat_mode(args: &[String], holes: bool, roundtrip: bool) {
         let r = match &c.extra {
             Extra::None => Ok(()),
             Extra::AttrEnum(a, it) => cur.set_attribute(*a, CharacterData::Enum(*it)),
-            Extra::AttrText(a) => cur.set_attribute(*a, CharacterData::String("x".to_string())),
+            Extra::AttrText(a) | Extra::AttrTextType(a) => cur.set_attribute(*a, CharacterData::String("x".to_string())),
             Extra::CdataEnum(it) => cur.set_character_data(CharacterData::Enum(*it)),
         };
         if r.is_err() { continue; }
@@ -556,6 +568,43 @@ fn api_compat_mode(args: &[String], holes: bool, roundtrip: bool) {
                         println!("FAIL in a model with a second file, check_version_compatibility of this file lists {} incompatibilities (mask {:#x}); alone it lists {} (mask {:#x}) [{}; second file loaded {}, target {}] :: document {}",
                                  e2.len(), m2, e1.len(), m1, c.what, if other_first { "first" } else { "second" }, v.filename(), hex(text.as_bytes()));
                         nfail += 1; if !survey { return; } else { continue 'docs; }
+                    }
+                }
+            }
+        }
+        // two files that share one package: this file must not be blamed for (or shielded by) what the other file contributes to the
+        // shared ELEMENTS container -- the other file holds the version-dependent content, this one a plain SYSTEM
+        if c.path.len() > 4 && c.path[1].0 == ElementName::ArPackages && c.path[2].0 == ElementName::ArPackage && c.path[3].0 == ElementName::Elements {
+            for va in [all_versions[0], *all_versions.last().unwrap(), all_versions[(built as usize) % all_versions.len()]] {
+                let ma = AutosarModel::new();
+                let Ok(fa0) = ma.create_file("a.arxml", va) else { continue };
+                let mut cur = ma.root_element();
+                let mut ok = true;
+                for (k, (name, _)) in c.path.iter().enumerate().skip(1).take(3) {
+                    let named = cur.element_type().find_sub_element(*name, va as u32).map(|(t, _)| t.is_named_in_version(va));
+                    let r = match named { Some(true) => cur.create_named_sub_element(*name, &format!("n{}", k)), Some(false) => cur.create_sub_element(*name), None => { ok = false; break; } };
+                    match r { Ok(e) => cur = e, Err(_) => { ok = false; break; } }
+                }
+                if !ok || cur.create_named_sub_element(ElementName::System, "zz_sys").is_err() { continue; }
+                let Ok(text_a) = fa0.serialize() else { continue };
+                for other_first in [true, false] {
+                    let m5 = AutosarModel::new();
+                    let loaded = if other_first {
+                        m5.load_buffer(text.as_bytes(), "b.arxml", true).and_then(|_| m5.load_buffer(text_a.as_bytes(), "a.arxml", true))
+                    } else {
+                        m5.load_buffer(text_a.as_bytes(), "a.arxml", true).and_then(|(fa, w)| m5.load_buffer(text.as_bytes(), "b.arxml", true).map(|_| (fa, w)))
+                    };
+                    let Ok((fa, _)) = loaded else { continue };
+                    for v in &all_versions {
+                        let relabelled = text_a.replace(va.filename(), v.filename());
+                        let strict_ok = matches!(AutosarModel::new().load_buffer(relabelled.as_bytes(), "g.arxml", true), Ok((_, w)) if w.is_empty());
+                        let (errs, mask) = fa.check_version_compatibility(*v);
+                        compared += 1;
+                        if errs.is_empty() != strict_ok || v.compatible(mask) != strict_ok {
+                            println!("FAIL two files share a package: for the file that holds only a SYSTEM, check_version_compatibility lists {} incompatibilities (mask {:#x}) but its relabelled text {} strict validation [the other file ({}) contributes: {}; this file is {}, loaded {}, target {}] :: document {}",
+                                     errs.len(), mask, if strict_ok { "passes" } else { "fails" }, v0.filename(), c.what, va.filename(), if other_first { "second" } else { "first" }, v.filename(), hex(text_a.as_bytes()));
+                            nfail += 1; if !survey { return; } else { continue 'docs; }
+                        }
                     }
                 }
             }
